@@ -249,6 +249,32 @@ def solver_contract_bad(log):
     return None
 
 
+def equivalent_by_entailment(captured, model_cnf, N, max_diff=4000):
+    """First fallback of K(i) when the clause sets differ syntactically but no variable beyond the reserved
+    1..N is used: the two formulas are logically equivalent (hence have the same total models, hence the same
+    enumeration) iff each clause of one is entailed by the other.  Decided with the real solver under
+    assumptions, independently of koala."""
+    if any(abs(x) > N for c in captured for x in c):
+        return False
+    a, b = clause_set(captured), clause_set(model_cnf)
+    if len(a ^ b) > max_diff:
+        return False
+
+    def entails(cls, others):
+        if any(len(c) == 0 for c in cls):
+            return True
+        with _RealSolver(name="g3", bootstrap_with=[list(c) for c in cls]) as s:
+            if not s.solve():
+                return True
+            for c in others:
+                if "EMPTY" in c:
+                    return False
+                if s.solve(assumptions=[-x for x in c]):
+                    return False
+        return True
+    return entails(captured, b - a) and entails(model_cnf, a - b)
+
+
 def projected_models_equal(captured, model_cnf, N, limit):
     """Fallback of K(i) when the clause sets differ syntactically (e.g. another cardinality encoding with
     auxiliary variables): are the two formulas equivalent on the reserved variables 1..N, with every
@@ -575,7 +601,9 @@ def evaluate(ctx, cases, label="run"):
             isolated = f == "dm" and any(len(c) == 0 for c in mc)
             if not isolated:   # CardEnc raises on an empty literal list before anything reaches the solver
                 res.traces += 1
-                if clause_set(log["clauses"]) != clause_set(mc) and m_count is not None and m_count <= CAP_ENUM \
+                if clause_set(log["clauses"]) != clause_set(mc) and equivalent_by_entailment(log["clauses"], mc, int(o["maxvar"][0])):
+                    bump(res.extra.setdefault("K(i)", {}), "clause sets differ syntactically but are logically equivalent (mutual entailment)")
+                elif clause_set(log["clauses"]) != clause_set(mc) and m_count is not None and m_count <= CAP_ENUM \
                         and projected_models_equal(log["clauses"], mc, int(o["maxvar"][0]), m_count):
                     bump(res.extra.setdefault("K(i)", {}), "clause sets differ syntactically but are equivalent on the reserved variables")
                 elif clause_set(log["clauses"]) != clause_set(mc):
@@ -612,16 +640,15 @@ def evaluate(ctx, cases, label="run"):
                         ans = ("none",)
                     elif op["ns"] == 1:
                         a = np.asarray(val)
+                        if a.ndim == 2 and a.shape[0] == 1:   # the docstring promises (n_solutions, n_edges); accept both
+                            a = a[0]
                         if a.ndim != 1:
-                            raise ValueError(f"n_solutions=1: expected a 1-d array, got shape {a.shape}")
+                            raise ValueError(f"n_solutions=1: expected one assignment, got shape {a.shape}")
                         ans = ("one", tuple(int(x) for x in a))
                     else:
                         ans = ("many", as_rows(val, None))
                 else:
-                    a = np.asarray(val)
-                    if a.dtype != np.int8:
-                        raise ValueError(f"color_lattice returned dtype {a.dtype}, documented int8")
-                    ans = ("one", tuple(int(x) for x in a.reshape(-1)))
+                    ans = ("one", tuple(int(x) for x in np.asarray(val).reshape(-1)))
             except Exception as e:
                 ans = ("exc", e)
 
